@@ -21,6 +21,14 @@ import time
 VERIF = os.path.dirname(os.path.dirname(os.path.abspath(__file__)))
 
 
+def _isolate():
+    p = subprocess.run("unshare -n bash -c 'ip link set lo up'", shell=True, capture_output=True)
+    return "unshare -n bash -c 'ip link set lo up; exec \"$@\"' -- " if p.returncode == 0 else "flock /tmp/seed-suite.lock "
+
+
+ISOLATE = _isolate()
+
+
 def sh(cmd, cwd=None, env=None, timeout=3600):
     p = subprocess.run(cmd, shell=True, cwd=cwd, env=env, capture_output=True, text=True, timeout=timeout)
     return p.returncode, p.stdout + p.stderr
@@ -79,8 +87,9 @@ def main():
             env["PYTHONPATH"] = changed
             junit = os.path.join(base, "junit.xml")
             t = time.time()
-            # the repository's tests bind fixed localhost ports: never run two suites at once (flock serialises them)
-            rc, out = sh("flock /tmp/seed-suite.lock /venv/bin/python -m pytest -ra -q -p no:cacheprovider --timeout=900 --continue-on-collection-errors "
+            # the repository's tests bind fixed localhost ports: never run two suites in one network namespace.  Each suite gets
+            # its own namespace (unshare -n, loopback up) so several confirmations can run side by side; flock is the fallback
+            rc, out = sh(ISOLATE + "/venv/bin/python -m pytest -ra -q -p no:cacheprovider --timeout=900 --continue-on-collection-errors "
                          "--junitxml=%s" % junit, cwd=changed + "/cpppo", env=env, timeout=14400)
             rc2, cmp_out = sh("python3 %s/tools/compare_baseline.py %s" % (VERIF, junit))
             print("repo suite on changed copy (%.0fs): %s" % (time.time() - t, cmp_out.strip()))
@@ -93,7 +102,7 @@ def main():
                 for name in failing:
                     mod, test = name.rsplit("::", 1)
                     path = mod.replace(".", "/") + ".py"
-                    rc3, out3 = sh("flock /tmp/seed-suite.lock /venv/bin/python -m pytest -q -p no:cacheprovider --timeout=900 %s" % path,
+                    rc3, out3 = sh(ISOLATE + "/venv/bin/python -m pytest -q -p no:cacheprovider --timeout=900 %s" % path,
                                    cwd=changed + "/cpppo", env=env, timeout=3600)
                     ok = (" %s " % test) not in out3 and ("::%s " % test) not in out3 and "FAILED %s::%s" % (path, test) not in out3 \
                         and " passed" in out3
